@@ -64,6 +64,10 @@ structure TS where
   backups : List (String × Run) := []
   foreign : List String := []
   nLifecycle : Nat := 0
+  corruptMode : Option String := none         -- damaged-copy mode: `table` (strict) or `log`/`manifest`/`current` (weak)
+  nCorrupt : Nat := 0
+  nCorruptReads : Nat := 0
+  nCorruptErrors : Nat := 0
   destroyed : Bool := false
   nLongIterOps : Nat := 0
   lastW : List WOp := []
@@ -369,6 +373,48 @@ def handleIt (t : TS) (seq op valid key val status : String) : TS :=
   | none => t.problem "MISMATCH[other]" "unparsable it line"
 
 
+/-- every value ever written to `k` (any version) -/
+def everWritten (c : Cmp) (hist : List Entry) (k : Bytes) : List String :=
+  (hist.filter (fun e => c.compare e.ukey k == .eq && e.kind == 1)).map (·.val)
+
+/-- lines while a damaged copy of the database is being read (C11): with table damage (strict) every answer is the
+    correct one or an error; with log / MANIFEST / CURRENT damage (weak) records may be lost or the open may fail, but no
+    value that was never written may appear -/
+def handleCorruptLine (t : TS) (fields : List String) : TS :=
+  let strict := t.corruptMode == some "table"
+  match fields with
+  | ["get", key, _seq, res] =>
+    match parseBytes key with
+    | some k =>
+      let t := { t with nCorruptReads := t.nCorruptReads + 1 }
+      if res.startsWith "err:" then { t with nCorruptErrors := t.nCorruptErrors + 1 } else
+      let show_ := fun (o : Option String) => match o with | some v => v | none => "notfound"
+      let o := show_ (view t.cmp t.history k (2 ^ 62))
+      if strict then
+        (if res == o then t else t.problem "VIOLATION[corrupt]" s!"damaged table file: get {key} returned {res} without an error; the correct answer is {o}")
+      else
+        (if res == "notfound" || (everWritten t.cmp t.history k).contains res then t
+         else t.problem "VIOLATION[corrupt]" s!"damaged {t.corruptMode.getD "?"} file: get {key} returned {res}, a value that was never written to that key")
+    | none => t.problem "MISMATCH[other]" "unparsable get"
+  | ["scan", dirn, items, status] =>
+    let t := { t with nCorruptReads := t.nCorruptReads + 1 }
+    let pairs := if items == "." then [] else (items.splitOn ",").filterMap fun it => match it.splitOn "=" with
+      | [k, v] => (parseBytes k).map (fun kb => (kb, v))
+      | _ => none
+    if status != "status=0" then { t with nCorruptErrors := t.nCorruptErrors + 1 } else
+    let vis := visibleMap t.cmp t.history (2 ^ 62)
+    let expected := if dirn == "bwd" then vis.reverse else vis
+    if strict then
+      (if pairs == expected then t
+       else t.problem "VIOLATION[corrupt]" s!"damaged table file: a {dirn} scan finished with OK status but returned {pairs.length} entries; the database holds {expected.length} live keys (first difference near {hexOfBytes ((pairs.zip expected).find? (fun (a, b) => a != b) |>.map (·.2.1) |>.getD [])})")
+    else
+      let bad := pairs.filter (fun (k, v) => !(everWritten t.cmp t.history k).contains v)
+      (if bad.isEmpty then t else t.problem "VIOLATION[corrupt]" s!"damaged {t.corruptMode.getD "?"} file: a scan returned a value that was never written for key {hexOfBytes (bad.headD ([], "")).1}")
+  | "open" :: rc :: _ => { t with isOpen := rc == "0" }
+  | ["close"] => { t with isOpen := false }
+  | "err" :: rest => t.problem "MISMATCH[other]" ("harness error: " ++ " ".intercalate rest)
+  | _ => t     -- version dumps, edits, table dumps of the damaged copy are not compared with the model
+
 def handleLine (t : TS) (line : String) : TS :=
   let t := { t with lineNo := t.lineNo + 1 }
   let fields := line.trimAscii.toString.splitOn " "
@@ -388,7 +434,11 @@ def handleLine (t : TS) (line : String) : TS :=
         else t
       if t.faultMode then t else { t with io := t.io.line idx rest }
     | _ => t
+  if t.corruptMode.isSome && (match fields with | "corrupt" :: _ => false | _ => true) then handleCorruptLine t fields else
   match fields with
+  | "corrupt" :: cls :: _ => { t with corruptMode := some cls, isOpen := false, nCorrupt := t.nCorrupt + 1, iter := none }
+  | "closed" :: _ => t
+  | ["verify", _] => t
   | ["open", rc, c] =>
     if rc != "0" then
       (if t.expectFail then { t with expectFail := false, inFailedOpen := true, nLifecycle := t.nLifecycle + 1 }
@@ -594,4 +644,4 @@ def main : IO Unit := do
     IO.println p
   for k in t.known do
     IO.println s!"KNOWN {k}"
-  IO.println s!"done lines={t.lineNo} writes={t.nWrites} gets={t.nGets} iterops={t.nIter} flushes={t.nFlush} compactions={t.nCompact} trivialmoves={t.nTrivial} recoveries={t.nRecover} invchecks={t.nInv} vers={t.nVer} ls={t.nLs} lifecycle={t.nLifecycle} repairs={t.nRepairs} liveiterops={t.nLongIterOps} crashes={t.nCrash} crashes2={t.nCrash2} crashnonempty={t.nCrashNontrivial} jevents={t.nJ} ioevents={t.io.nEvents} edits={t.io.nEdits} conforms={if t.io.mon.ok then 1 else 0} conformsstrict={if t.io.mon.ok && t.io.mon.okDel then 1 else 0} werr={t.nWerr} failedbatches={t.nFailedBatches} maxfiles={t.maxFiles} levelsused={t.levelsUsed} problems={t.problems.length + t.io.problems.length}"
+  IO.println s!"done lines={t.lineNo} writes={t.nWrites} gets={t.nGets} iterops={t.nIter} flushes={t.nFlush} compactions={t.nCompact} trivialmoves={t.nTrivial} recoveries={t.nRecover} invchecks={t.nInv} vers={t.nVer} ls={t.nLs} lifecycle={t.nLifecycle} corruptions={t.nCorrupt} corruptreads={t.nCorruptReads} corrupterrors={t.nCorruptErrors} repairs={t.nRepairs} liveiterops={t.nLongIterOps} crashes={t.nCrash} crashes2={t.nCrash2} crashnonempty={t.nCrashNontrivial} jevents={t.nJ} ioevents={t.io.nEvents} edits={t.io.nEdits} conforms={if t.io.mon.ok then 1 else 0} conformsstrict={if t.io.mon.ok && t.io.mon.okDel then 1 else 0} werr={t.nWerr} failedbatches={t.nFailedBatches} maxfiles={t.maxFiles} levelsused={t.levelsUsed} problems={t.problems.length + t.io.problems.length}"
